@@ -409,3 +409,47 @@ Proof.
   - exact Hp.
   - eapply Forall_impl; [|exact Hall]. intros lv Hlv. now apply matches_false_spec.
 Qed.
+
+(* ------------------------------------------------------------------ the filter walk of the pinned code *)
+
+Lemma tuple_next_at : forall pre c post,
+  ~ In c pre -> tuple_next (pre ++ c :: post) c = hd_error post.
+Proof.
+  induction pre as [|x pre IH]; intros c post Hnin; cbn [app tuple_next].
+  - now rewrite Nat.eqb_refl.
+  - destruct (x =? c) eqn:E.
+    + apply Nat.eqb_eq in E. subst. exfalso. apply Hnin. now left.
+    + apply IH. intros H. apply Hnin. now right.
+Qed.
+
+Lemma foreach_from : forall k post pre c fuel,
+  NoDup (pre ++ c :: post) -> length post + 2 <= fuel ->
+  foreach_matches fuel (pre ++ c :: post) (Some c) k = Some (existsb (Nat.eqb k) (c :: post)).
+Proof.
+  intros k. induction post as [|x post IH]; intros pre c fuel Hnd Hf.
+  - destruct fuel as [|[|f]]; cbn [length] in Hf; try lia.
+    cbn [foreach_matches existsb]. destruct (k =? c); [reflexivity|].
+    rewrite tuple_next_at; [reflexivity|].
+    apply NoDup_remove_2 in Hnd. intros H. apply Hnd. rewrite app_nil_r. exact H.
+  - destruct fuel as [|f]; cbn [length] in Hf; [lia|].
+    cbn [foreach_matches]. cbn [existsb]. destruct (k =? c); [reflexivity|]. cbn [orb].
+    rewrite tuple_next_at.
+    + cbn [hd_error].
+      replace (pre ++ c :: x :: post) with ((pre ++ [c]) ++ x :: post) in * by (now rewrite <- app_assoc).
+      apply IH; [exact Hnd | lia].
+    + apply NoDup_remove_2 in Hnd. intros H. apply Hnd. apply in_or_app. now left.
+Qed.
+
+(* on a duplicate-free filter the foreach walk of the pinned code decides what [matches] decides *)
+Lemma foreach_agrees_on_sets : forall fs k fuel,
+  NoDup fs -> fs <> [] -> length fs + 1 <= fuel ->
+  foreach_matches fuel fs (hd_error fs) k = Some (matches fs k).
+Proof.
+  intros fs k fuel Hnd Hne Hf. destruct fs as [|c post]; [contradiction|].
+  cbn [hd_error matches]. apply (foreach_from k post [] c fuel Hnd). cbn [length] in Hf. lia.
+Qed.
+
+(* ... and never finishes on a filter that names an object twice, when that object is not the thrown one *)
+Lemma foreach_diverges_on_duplicate : forall fuel,
+  foreach_matches fuel [0; 0] (hd_error [0; 0]) 1 = None.
+Proof. induction fuel as [|f IH]; [reflexivity|]. cbn. exact IH. Qed.
